@@ -88,33 +88,63 @@ def gen_history(seed, case, nsteps, opts):
 # execution of a concrete history in twin directories
 # ------------------------------------------------------------------------------------------------
 
-def classify(m, step, files, last_ok_files):
-    """Scenario class for a mismatch: which kind of source the differing output belongs to and whether that
-    source changed since the last successful incremental build."""
+def signature(m, step, argv, files, last_ok_files, changed_at, check_steps, si, inc, cln):
+    """Stable signature = failure kind + scenario class (never generated names, never item-kind combinations).
+
+    output mismatches: <kind>:<sv|map|other>:<generic_definition|plain>:<source_unchanged|checked_since_change|source_changed>
+        (generic_definition = the output's source declares a generic module; checked_since_change = the source changed
+        since the last successful incremental build/test and a `veryl check` has seen the new content since)
+    filelist:          <kind>:filelist:<how>:<cmd class>
+    diagnostics:       diag_<extra|missing|...>:<severity>:<code>:<scenario>
+    exit status:       exit_differs:<target type>-target:inc=<a>:cln=<b>"""
+    cmd = argv[0]
+    cmdcls = "test_filter" if (cmd == "test" and "--test" in argv) else (cmd + "_file" if len(argv) > 1 and cmd in ("build", "check") else cmd)
+    meta = step.get("meta", {})
+    target = meta.get("target", "?")
+    kind = m["kind"]
+    if kind.startswith("diag_"):
+        sev, _, code = m["cls"].partition(":")
+        both_fail = inc.code == cln.code and inc.code not in (0, None)
+        warm = bool(inc.restored and inc.restored[0] > 0)
+        if kind == "diag_extra" and sev == "Warning" and both_fail and warm:
+            return "diag_extra:Warning:replayed_on_failing_run"
+        if kind == "diag_missing" and sev == "Warning" and warm:
+            return f"diag_missing:Warning:{code}:cached_warning_lost"
+        if kind == "diag_extra" and sev == "Error" and code == "None" and "No such file or directory" in m["detail"] and target == "bundle":
+            return "diag_extra:Error:io_no_such_file:bundle-target"
+        return f"{kind}:{sev}:{code}:{cmdcls}"
+    if kind == "exit_differs":
+        return f"exit_differs:{target}-target:{m['cls']}"
     rel = m.get("rel")
     if not rel:
-        return m["cls"]
-    meta = step.get("meta", {})
-    if m["cls"] == "filelist" and "inc_head" in m:
-        a = [l for l in m.get("inc_full", m["inc_head"]).splitlines() if l.strip()]
-        b = [l for l in m.get("cln_full", m["cln_head"]).splitlines() if l.strip()]
-        if set(a) - set(b) and not set(b) - set(a):
-            how = "inc_lists_extra_files"
-        elif set(b) - set(a) and not set(a) - set(b):
-            how = "inc_omits_files"
-        elif set(a) == set(b):
-            how = "order_or_duplicates"
-        else:
-            how = "different_entries"
-        return f"filelist:{how}"
+        return f"{kind}:{m['cls']}:{cmdcls}"
+    if m["cls"] == "filelist":
+        how = "missing"
+        if "inc_head" in m:
+            a = [l for l in m.get("inc_full", m["inc_head"]).splitlines() if l.strip()]
+            b = [l for l in m.get("cln_full", m["cln_head"]).splitlines() if l.strip()]
+            if set(a) - set(b) and not set(b) - set(a):
+                how = "inc_lists_extra_files"
+            elif set(b) - set(a) and not set(a) - set(b):
+                how = "inc_omits_files"
+            elif set(a) == set(b):
+                how = "order_or_duplicates"
+            else:
+                how = "different_entries"
+        return f"{kind}:filelist:{how}:{cmdcls}"
     src = meta.get("out_src", {}).get(rel[:-4] if rel.endswith(".map") else rel)
     if src is None:
-        if rel.startswith("dependencies/"):
-            return f"{m['cls']}:dependency"
-        return f"{m['cls']}:{meta.get('target', '?')}-target"
-    kinds = meta.get("src_kinds", {}).get(src, "?")
-    changed = "source_changed" if files.get(src) != (last_ok_files or {}).get(src) else "source_unchanged"
-    return f"{m['cls']}:{kinds}:{changed}"
+        where = "dependency" if rel.startswith("dependencies/") else f"{target}-target"
+        return f"{kind}:{m['cls']}:{where}"
+    kinds = meta.get("src_kinds", {}).get(src, "")
+    gen = "generic_definition" if "gen" in kinds.split("+") else "plain"
+    if files.get(src) == (last_ok_files or {}).get(src):
+        state = "source_unchanged"
+    elif any(changed_at.get(src, 0) <= j < si for j in check_steps):
+        state = "checked_since_change"
+    else:
+        state = "source_changed"
+    return f"{kind}:{m['cls']}:{gen}:{state}"
 
 
 def execute(case_dir, files0, steps, template_home, sabotage=False, keep=False, known=()):
@@ -134,10 +164,16 @@ def execute(case_dir, files0, steps, template_home, sabotage=False, keep=False, 
 
     last_ok_files = None
     sabotaged = False
+    changed_at = {}
+    check_steps = []
     for si, st in enumerate(steps):
+        before = dict(files)
         for e in st["edits"]:
             apply_edit(inc, e)
             apply_edit_to_map(files, e)
+        for p, t in files.items():
+            if before.get(p) != t:
+                changed_at[p] = si
         argv = st["cmd"]
         sources = set(files)
         pre = twin.digest_outputs(inc, sources)
@@ -194,8 +230,7 @@ def execute(case_dir, files0, steps, template_home, sabotage=False, keep=False, 
         if mm:
             by_sig = {}
             for m in mm:
-                cmdcls = "test_filter" if (cmd == "test" and "--test" in argv) else (cmd + "_file" if len(argv) > 1 and cmd in ("build", "check") else cmd)
-                sig = f"{m['kind']}:{classify(m, st, files, last_ok_files)}:{cmdcls}"
+                sig = signature(m, st, argv, files, last_ok_files, changed_at, check_steps, si, r_inc, r_cln)
                 by_sig.setdefault(sig, []).append(m)
             for sig, ms in by_sig.items():
                 what = (f"after step {si} ({' '.join(argv)}; edits: {','.join(st.get('kinds', []))}) the incremental twin differs from "
@@ -207,7 +242,19 @@ def execute(case_dir, files0, steps, template_home, sabotage=False, keep=False, 
             if not all(sig in known for sig in by_sig):
                 break      # later steps of a diverged history are not informative
             bump("steps_diverged_known_finding")
-        if r_inc.code == 0 and cmd in ("build", "test"):
+            # resynchronise: give the incremental twin the clean twin's bytes for the files that differ, so that the
+            # same stale file is not re-reported under another scenario class in later steps
+            for m in mm:
+                rel = m.get("rel")
+                if rel and m["kind"] in ("output_differs", "output_missing") and rel in r_cln.outputs:
+                    full = os.path.join(inc, rel)
+                    os.makedirs(os.path.dirname(full), exist_ok=True)
+                    with open(full, "wb") as f:
+                        f.write(r_cln.outputs[rel].replace(cln.encode(), inc.encode()))
+                    bump("outputs_resynchronised_after_known_finding")
+        if cmd == "check" and not any(d["severity"] == "Error" and d["code"] for d in r_inc.diags):
+            check_steps.append(si)      # a check without errors saves the manifest (new hashes) without emitting anything
+        if r_inc.code == 0 and cmd in ("build", "test") and len(argv) == 1 or (r_inc.code == 0 and cmd == "test" and "--test" not in argv):
             last_ok_files = dict(files)
     if not keep:
         shutil.rmtree(case_dir, ignore_errors=True)
@@ -269,8 +316,8 @@ def main():
             run.inconclusive(r)
         run.finish([("steps_compared", 1)])
 
-    ncases = args.budget("cases", 12, 300)
-    nsteps = args.budget("steps", 12, 40)
+    ncases = args.budget("cases", 12, 120)
+    nsteps = args.budget("steps", 12, 30)
     jobs = int(args.extra.get("jobs", min(12, os.cpu_count() or 4)))
     opts = {"hand_edit": bool(int(args.extra.get("hand_edit", 0))), "rm_map": bool(int(args.extra.get("rm_map", 0))),
             "sabotage": bool(int(args.extra.get("sabotage", 0))),
